@@ -3,7 +3,7 @@
 From Coq Require Import List Arith Bool.
 Import ListNotations.
 From NV Require Import Vector.Model Vector.History Vector.Wf Vector.HistoryAbs Vector.VecProofs Vector.ExtendProofs
-  Vector.SliceProofs Vector.HistoryProofs Vector.BitOps.
+  Vector.SliceProofs Vector.HistoryProofs Vector.BitOps Vector.RcHeap Vector.RcHeapProofs.
 
 (* ---- the property: histories over families of handles refine independent lists *)
 Lemma history_refines_stmt : forall B ops, 2 <= B ->
@@ -135,3 +135,36 @@ Proof. exact bit_ops_agree. Qed.
 
 Lemma leaf_mask_agrees_stmt : forall k idx, Nat.land idx (2 ^ k - 1) = idx mod 2 ^ k.
 Proof. exact leaf_mask_agrees. Qed.
+
+(* ---- T1: the same operations over an explicit heap of reference-counted nodes (Vector/RcHeap.v).
+   [hinv] = counts are exact w.r.t. the live handles; an operation through the handle in the middle
+   of [pre ++ v :: post] refines the value-level operation and leaves every other handle's
+   abstraction unchanged (frame). *)
+Lemma rc_set_refines_frame_stmt : forall A B (hp : @heap A) pre v post idx x vv vv',
+  hinv hp (pre ++ v :: post) -> vabs hp v = Some vv -> vset B vv idx x = Some vv' ->
+  exists hp' v', hvset B hp v idx x = Some (hp', v')
+    /\ hinv hp' (pre ++ v' :: post) /\ vabs hp' v' = Some vv'
+    /\ (forall w, In w (pre ++ post) -> vabs hp' w = vabs hp w).
+Proof. intros A B. exact (@hvset_refines_frame A B). Qed.
+
+Lemma rc_push_refines_frame_stmt : forall A B (hp : @heap A) pre v post x vv vv',
+  hinv hp (pre ++ v :: post) -> vabs hp v = Some vv -> vpush B vv x = Some vv' ->
+  exists hp' v', hvpush B hp v x = Some (hp', v')
+    /\ hinv hp' (pre ++ v' :: post) /\ vabs hp' v' = Some vv'
+    /\ (forall w, In w (pre ++ post) -> vabs hp' w = vabs hp w).
+Proof. intros A B. exact (@hvpush_refines_frame A B). Qed.
+
+Lemma rc_clone_stmt : forall A (hp : @heap A) hs v, hinv hp hs -> In v hs ->
+  let (hp', v') := hvclone hp v in
+  hinv hp' (v' :: hs) /\ vabs hp' v' = vabs hp v /\ forall w, vabs hp' w = vabs hp w.
+Proof. intros A. exact (@hvclone_spec A). Qed.
+
+Lemma rc_get_stmt : forall A B (hp : @heap A) v vv idx, vabs hp v = Some vv -> hvget B hp v idx = vget B vv idx.
+Proof. intros A B. exact (@hvget_refines A B). Qed.
+
+Lemma rc_new_stmt : forall A (hp : @heap A) hs, hinv hp hs ->
+  hinv hp (hvnew :: hs) /\ vabs hp hvnew = Some (@vnew A).
+Proof. intros A. exact (@hvnew_spec A). Qed.
+
+Lemma rc_init_stmt : forall A, hinv (@nil (@cell A)) [].
+Proof. intros A. exact (@hinv_empty A). Qed.
